@@ -44,6 +44,9 @@ struct Tap {
     cut_is_stall: bool,
     stall: Gate,
     sent: Arc<Mutex<usize>>,
+    corrupt: Option<(usize, u8)>,
+    frag: usize,
+    yield_next: bool,
 }
 impl AsyncRead for Tap {
     fn poll_read(mut self: Pin<&mut Self>, cx: &mut Context<'_>, buf: &mut ReadBuf<'_>) -> Poll<std::io::Result<()>> {
@@ -57,6 +60,30 @@ impl AsyncRead for Tap {
 }
 impl AsyncWrite for Tap {
     fn poll_write(mut self: Pin<&mut Self>, cx: &mut Context<'_>, data: &[u8]) -> Poll<std::io::Result<usize>> {
+        // fragmenting peer: after each piece let the other side run before the next one
+        if self.frag > 0 && self.yield_next {
+            self.yield_next = false;
+            cx.waker().wake_by_ref();
+            return Poll::Pending;
+        }
+        let data = if self.frag > 0 { &data[..self.frag.min(data.len())] } else { data };
+        // corrupting peer: one byte of the output stream is altered
+        let pos = *self.sent.lock().unwrap();
+        let altered: Vec<u8>;
+        let data = match self.corrupt {
+            Some((at, mask)) if at >= pos && at < pos + data.len() => {
+                altered = {
+                    let mut d = data.to_vec();
+                    d[at - pos] ^= mask;
+                    d
+                };
+                &altered[..]
+            }
+            _ => data,
+        };
+        if self.frag > 0 {
+            self.yield_next = true;
+        }
         if let Some(b) = self.write_budget {
             if b == 0 {
                 if self.cut_is_stall {
@@ -112,6 +139,19 @@ pub struct Case {
     /// send a real request through `Client` (builder, pool, layers, HTTP/1.1 connection) instead of
     /// writing marker bytes to the stream the transport returns
     pub via_client: bool,
+    /// how the bytes travel: a corrupted byte of the peer's output, the peer's output in small
+    /// fragments with the client scheduled in between, a small buffer for the client's own writes
+    pub io: IoShape,
+}
+
+#[derive(Clone, Debug, Default, PartialEq, Eq)]
+pub struct IoShape {
+    /// (offset in the peer's output, xor mask)
+    pub corrupt: Option<(usize, u8)>,
+    /// the peer's writes are cut into pieces of this many bytes, yielding after each (0 = whole)
+    pub frag: usize,
+    /// capacity of the in-memory stream (0 = 16 KiB)
+    pub bufsize: usize,
 }
 
 impl Case {
@@ -160,7 +200,7 @@ impl Fx {
 
 pub fn run_case(c: &Case, fx: &Fx) -> Seen {
     let mut s = Sched::new(vec![]);
-    let (near, far) = DuplexStream::new(16384);
+    let (near, far) = DuplexStream::new(if c.io.bufsize == 0 { 16384 } else { c.io.bufsize });
     let seen = Arc::new(Mutex::new(Seen::default()));
     let raw_in = Arc::new(Mutex::new(Vec::new()));
     let sent = Arc::new(Mutex::new(0usize));
@@ -235,7 +275,7 @@ fn finish_case(c: &Case, mut s: Sched, seen: Arc<Mutex<Seen>>, raw_in: Arc<Mutex
         Peer::Tls { cert, alpn, truncate, stall: st } => {
             let ai = ALPNS.iter().position(|a| *a == alpn).unwrap_or(0);
             let server_cfg = fx.servers[&(cert.to_string(), ai)].clone();
-            let tap = Tap { inner: far, raw_in: raw_in.clone(), write_budget: truncate, cut_is_stall: st, stall: stall.clone(), sent: sent.clone() };
+            let tap = Tap { inner: far, raw_in: raw_in.clone(), write_budget: truncate, cut_is_stall: st, stall: stall.clone(), sent: sent.clone(), corrupt: c.io.corrupt, frag: c.io.frag, yield_next: false };
             s.spawn("peer", async move {
                 let acceptor = tokio_rustls::TlsAcceptor::from(server_cfg);
                 match acceptor.accept(tap).await {
@@ -263,7 +303,7 @@ fn finish_case(c: &Case, mut s: Sched, seen: Arc<Mutex<Seen>>, raw_in: Arc<Mutex
             });
         }
         Peer::CloseAtOnce => {
-            let mut tap = Tap { inner: far, raw_in: raw_in.clone(), write_budget: None, cut_is_stall: false, stall: stall.clone(), sent: sent.clone() };
+            let mut tap = Tap { inner: far, raw_in: raw_in.clone(), write_budget: None, cut_is_stall: false, stall: stall.clone(), sent: sent.clone(), corrupt: c.io.corrupt, frag: c.io.frag, yield_next: false };
             s.spawn("peer", async move {
                 // read whatever is already there (to record it), then hang up
                 let mut buf = [0u8; 1024];
@@ -279,7 +319,7 @@ fn finish_case(c: &Case, mut s: Sched, seen: Arc<Mutex<Seen>>, raw_in: Arc<Mutex
         }
         Peer::PlaintextReply | Peer::Silent => {
             let reply = c.peer == Peer::PlaintextReply;
-            let mut tap = Tap { inner: far, raw_in: raw_in.clone(), write_budget: None, cut_is_stall: false, stall: stall.clone(), sent: sent.clone() };
+            let mut tap = Tap { inner: far, raw_in: raw_in.clone(), write_budget: None, cut_is_stall: false, stall: stall.clone(), sent: sent.clone(), corrupt: c.io.corrupt, frag: c.io.frag, yield_next: false };
             let stall2 = stall.clone();
             s.spawn("peer", async move {
                 if reply {
@@ -296,7 +336,7 @@ fn finish_case(c: &Case, mut s: Sched, seen: Arc<Mutex<Seen>>, raw_in: Arc<Mutex
             });
         }
     }
-    s.horizon = 4000;
+    s.horizon = if c.io.frag > 0 || c.io.bufsize > 0 { 200_000 } else { 4000 };
     s.run();
     let mut out = seen.lock().unwrap().clone();
     out.panics.extend(s.panics().into_iter().map(|(t, p)| format!("{t}: {p}")));
@@ -340,6 +380,10 @@ pub fn check(c: &Case, o: &Seen) -> Vec<(String, String)> {
         let bare = c.host.trim_start_matches('[').trim_end_matches(']');
         let is_ip = bare.parse::<std::net::IpAddr>().is_ok();
         let should_succeed = match &c.peer {
+            // a corrupted byte that the handshake does not authenticate (a record-header version
+            // byte) may be harmless: then the stream is acceptable exactly when the peer's own
+            // handshake completed, which proves the client verified the untampered transcript
+            Peer::Tls { .. } if c.io.corrupt.is_some() => got_stream && matches!(o.peer_handshake, Some(Ok(()))),
             Peer::Tls { cert, truncate: None, .. } => {
                 let (names, trusted) = cert_names(cert);
                 trusted && names.iter().any(|n| n.eq_ignore_ascii_case(bare))
@@ -349,7 +393,7 @@ pub fn check(c: &Case, o: &Seen) -> Vec<(String, String)> {
         if got_stream && !should_succeed {
             v.push(("stream-without-verified-handshake".into(), format!("the caller was given a usable stream although the peer ({:?}) cannot have presented a trusted certificate for {bare}", c.peer)));
         }
-        if !got_stream && should_succeed && !matches!(&c.peer, Peer::Tls { stall: true, .. }) {
+        if !got_stream && should_succeed && !matches!(&c.peer, Peer::Tls { stall: true, .. }) && c.io.corrupt.is_none() {
             v.push(("valid-handshake-rejected".into(), format!("handshake with a trusted certificate valid for {bare} failed: client {:?}, peer {:?}", o.client, o.peer_handshake)));
         }
         if got_stream {
@@ -368,7 +412,8 @@ pub fn check(c: &Case, o: &Seen) -> Vec<(String, String)> {
                 v.push(("app-data-altered".into(), format!("the peer decrypted {:?}", String::from_utf8_lossy(&o.peer_app))));
             }
         }
-        if o.hung && !matches!(&c.peer, Peer::Silent | Peer::Tls { stall: true, .. }) && !(matches!(&c.peer, Peer::PlaintextReply)) {
+        // an altered length field makes the client wait for bytes the (live, waiting) peer never sends: that is a silent peer, not a lost result
+        if o.hung && !matches!(&c.peer, Peer::Silent | Peer::Tls { stall: true, .. }) && !(matches!(&c.peer, Peer::PlaintextReply)) && c.io.corrupt.is_none() {
             v.push(("no-result".into(), format!("the connect attempt neither succeeded nor failed (peer {:?})", c.peer)));
         }
     } else {
@@ -410,12 +455,12 @@ pub fn cases(thorough: bool, flight_len: usize, flight_len_ip: usize) -> Vec<Cas
                             if port.is_some() && !(ai == 3 && client_alpn) {
                                 continue;
                             }
-                            v.push(Case { scheme, host, port, peer: Peer::Tls { cert, alpn, truncate: None, stall: false }, client_alpn, via_client: false });
+                            v.push(Case { scheme, host, port, peer: Peer::Tls { cert, alpn, truncate: None, stall: false }, client_alpn, via_client: false, io: IoShape::default() });
                         }
                     }
                 }
                 for peer in [Peer::CloseAtOnce, Peer::PlaintextReply, Peer::Silent] {
-                    v.push(Case { scheme, host, port, peer, client_alpn: true, via_client: false });
+                    v.push(Case { scheme, host, port, peer, client_alpn: true, via_client: false, io: IoShape::default() });
                 }
             }
         }
@@ -427,20 +472,47 @@ pub fn cases(thorough: bool, flight_len: usize, flight_len_ip: usize) -> Vec<Cas
             continue;
         }
         for port in [None, Some(8443u16)] {
-            v.push(Case { scheme, host, port, peer: Peer::Tls { cert, alpn: ALPNS[0], truncate: None, stall: false }, client_alpn: false, via_client: true });
+            v.push(Case { scheme, host, port, peer: Peer::Tls { cert, alpn: ALPNS[0], truncate: None, stall: false }, client_alpn: false, via_client: true, io: IoShape::default() });
         }
-        v.push(Case { scheme, host, port: None, peer: Peer::PlaintextReply, client_alpn: false, via_client: true });
-        v.push(Case { scheme, host, port: None, peer: Peer::CloseAtOnce, client_alpn: false, via_client: true });
+        v.push(Case { scheme, host, port: None, peer: Peer::PlaintextReply, client_alpn: false, via_client: true, io: IoShape::default() });
+        v.push(Case { scheme, host, port: None, peer: Peer::CloseAtOnce, client_alpn: false, via_client: true, io: IoShape::default() });
     }
     // the real server flight truncated at every byte offset, then close / then stall
     let step = if thorough { 1 } else { 3 };
     for n in (0..flight_len).step_by(step) {
         for stall in [false, true] {
-            v.push(Case { scheme: "https", host: "example.com", port: None, peer: Peer::Tls { cert: "examplecom", alpn: ALPNS[3], truncate: Some(n), stall }, client_alpn: true, via_client: false });
+            v.push(Case { scheme: "https", host: "example.com", port: None, peer: Peer::Tls { cert: "examplecom", alpn: ALPNS[3], truncate: Some(n), stall }, client_alpn: true, via_client: false, io: IoShape::default() });
         }
     }
+    // one byte of the server's flight altered (quick: lowest bit; thorough: also the highest bit)
+    for n in 0..flight_len {
+        for mask in [0x01u8, 0x80] {
+            if mask == 0x80 && !thorough {
+                continue;
+            }
+            v.push(Case { scheme: "https", host: "example.com", port: None, peer: Peer::Tls { cert: "examplecom", alpn: ALPNS[3], truncate: None, stall: false }, client_alpn: true, via_client: false, io: IoShape { corrupt: Some((n, mask)), frag: 0, bufsize: 0 } });
+        }
+    }
+    // the handshake bytes fragmented: the peer's output in pieces of `frag` bytes with the client
+    // scheduled after each piece, and a small stream buffer so the client's own writes go out in pieces
+    for (scheme, host, cert) in [("https", "example.com", "examplecom"), ("wss", "[::1]", "iphost"), ("https", "example.com", "othername"), ("https", "example.com", "rogue-examplecom"), ("https", "other.test", "examplecom")] {
+        for frag in [0usize, 1, 2, 5, 64] {
+            for bufsize in [0usize, 64, 100] {
+                if frag == 0 && bufsize == 0 {
+                    continue;
+                }
+                for via_client in [false, true] {
+                    v.push(Case { scheme, host, port: None, peer: Peer::Tls { cert, alpn: ALPNS[if via_client { 0 } else { 3 }], truncate: None, stall: false }, client_alpn: !via_client, via_client, io: IoShape { corrupt: None, frag, bufsize } });
+                }
+            }
+        }
+    }
+    // fragmented and truncated
+    for n in (0..flight_len).step_by(if thorough { 1 } else { 5 }) {
+        v.push(Case { scheme: "https", host: "example.com", port: None, peer: Peer::Tls { cert: "examplecom", alpn: ALPNS[3], truncate: Some(n), stall: false }, client_alpn: true, via_client: false, io: IoShape { corrupt: None, frag: 3, bufsize: 32 } });
+    }
     for n in (0..flight_len_ip).step_by(if thorough { 7 } else { 41 }) {
-        v.push(Case { scheme: "wss", host: "[::1]", port: Some(8443), peer: Peer::Tls { cert: "iphost", alpn: ALPNS[0], truncate: Some(n), stall: false }, client_alpn: false, via_client: false });
+        v.push(Case { scheme: "wss", host: "[::1]", port: Some(8443), peer: Peer::Tls { cert: "iphost", alpn: ALPNS[0], truncate: Some(n), stall: false }, client_alpn: false, via_client: false, io: IoShape::default() });
     }
     v
 }
@@ -480,6 +552,14 @@ fn replay(path: &str, fx: &Fx) -> i32 {
         peer,
         client_alpn: rp.get("client_alpn").and_then(|x| x.as_bool()).unwrap_or(true),
         via_client: rp.get("via_client").and_then(|x| x.as_bool()).unwrap_or(false),
+        io: {
+            let io = rp.get("io").cloned().unwrap_or_default();
+            IoShape {
+                corrupt: io.get("corrupt").and_then(|x| x.as_array()).and_then(|a| Some((a.first()?.as_u64()? as usize, a.get(1)?.as_u64()? as u8))),
+                frag: io.get("frag").and_then(|x| x.as_u64()).unwrap_or(0) as usize,
+                bufsize: io.get("bufsize").and_then(|x| x.as_u64()).unwrap_or(0) as usize,
+            }
+        },
     };
     std::panic::set_hook(Box::new(|_| {}));
     let o = run_case(&c, fx);
@@ -512,14 +592,14 @@ pub fn run(args: &Args) -> i32 {
     }
     std::panic::set_hook(Box::new(|_| {}));
     // measure the server's flight once (how many bytes the peer sends before the client's finished)
-    let probe = run_case(&Case { scheme: "https", host: "example.com", port: None, peer: Peer::Tls { cert: "examplecom", alpn: ALPNS[3], truncate: None, stall: false }, client_alpn: true, via_client: false }, &fx);
+    let probe = run_case(&Case { scheme: "https", host: "example.com", port: None, peer: Peer::Tls { cert: "examplecom", alpn: ALPNS[3], truncate: None, stall: false }, client_alpn: true, via_client: false, io: IoShape::default() }, &fx);
     // the server's handshake flight: what the peer had sent when the client's handshake completed
     // (if the reference handshake itself fails the grid below reports why; use a nominal length then)
     // ECDSA signatures are randomised and their DER length varies by a byte or two between
     // handshakes, so the last few offsets of the flight are left out (a cut there may fall after the
     // end of another handshake's flight, which is then legitimately complete).
     let flight_len = probe.peer_sent_at_connect.unwrap_or(1000).saturating_sub(8);
-    let probe_ip = run_case(&Case { scheme: "wss", host: "[::1]", port: Some(8443), peer: Peer::Tls { cert: "iphost", alpn: ALPNS[0], truncate: None, stall: false }, client_alpn: false, via_client: false }, &fx);
+    let probe_ip = run_case(&Case { scheme: "wss", host: "[::1]", port: Some(8443), peer: Peer::Tls { cert: "iphost", alpn: ALPNS[0], truncate: None, stall: false }, client_alpn: false, via_client: false, io: IoShape::default() }, &fx);
     let flight_len_ip = probe_ip.peer_sent_at_connect.map(|n| n.saturating_sub(8)).unwrap_or(flight_len);
     let cs = cases(args.tier.is_thorough(), flight_len, flight_len_ip);
     let threads = crate::evidence::n_threads();
@@ -534,6 +614,8 @@ pub fn run(args: &Args) -> i32 {
     for (i, (o, viols)) in results.iter().enumerate() {
         let c = &cs[i];
         let peer_class = match &c.peer {
+            Peer::Tls { .. } if c.io.corrupt.is_some() => "tls-corrupted".to_string(),
+            Peer::Tls { cert, truncate: None, .. } if c.io.frag > 0 || c.io.bufsize > 0 => format!("tls-{cert}-fragmented"),
             Peer::Tls { cert, truncate: None, .. } => format!("tls-{cert}"),
             Peer::Tls { truncate: Some(_), stall, .. } => format!("tls-truncated-{}", if *stall { "stall" } else { "close" }),
             p => format!("{p:?}"),
@@ -551,14 +633,14 @@ pub fn run(args: &Args) -> i32 {
         for (sub, msg) in viols {
             let bare = c.host.trim_start_matches('[').trim_end_matches(']');
             let hk = if c.host.starts_with('[') { "ipv6-literal" } else if bare.parse::<std::net::Ipv4Addr>().is_ok() { "ipv4" } else { "name" };
-            run.violation(format!("{sub} scheme={} host-kind={hk} peer={peer_class}", c.scheme), format!("{msg}; uri {} peer {:?}", c.uri(), c.peer), json!({"engine":"schedmc-c12","uri":c.uri(),"scheme":c.scheme,"host":c.host,"port":c.port,"peer":format!("{:?}", c.peer),"peer_spec":peer_json(&c.peer),"client_alpn":c.client_alpn,"via_client":c.via_client}));
+            run.violation(format!("{sub} scheme={} host-kind={hk} peer={peer_class}", c.scheme), format!("{msg}; uri {} peer {:?}", c.uri(), c.peer), json!({"engine":"schedmc-c12","uri":c.uri(),"scheme":c.scheme,"host":c.host,"port":c.port,"peer":format!("{:?}", c.peer),"peer_spec":peer_json(&c.peer),"client_alpn":c.client_alpn,"via_client":c.via_client,"io":{"corrupt":c.io.corrupt.map(|(a,m)| vec![a as u64, m as u64]),"frag":c.io.frag,"bufsize":c.io.bufsize}}));
         }
     }
     run.cov("evaluations", cs.len() as u64);
     run.cov("distinct_nontrivial", classes.len() as u64);
     run.cov("server_flight_bytes", flight_len as u64);
     run.cov("exhaustive", true);
-    run.cov("rule", "grid scheme{http,https,ws,wss,ftp} x host{DNS, upper-case, localhost, IPv4, [IPv6], underscore, '$', '-', other, 'a..b'} x port{none,443,8443} x peer{real rustls server with certificate matching / IP SAN / other name / untrusted root x server ALPN{none,h2,http/1.1,both} x client ALPN{none,both}; closes at once; answers in plaintext; silent} plus the real server flight truncated at byte offsets (every 3rd in quick, every one in thorough) then close / then stall; each through the real TlsTransport with a TLS configuration under the deterministic executor, raw bytes recorded at the peer; distinct = (scheme, host, peer class, client outcome, first wire byte)");
+    run.cov("rule", "grid scheme{http,https,ws,wss,ftp} x host{DNS, upper-case, localhost, IPv4, [IPv6], underscore, '$', '-', other, 'a..b'} x port{none,443,8443} x peer{real rustls server with certificate matching / IP SAN / other name / untrusted root x server ALPN{none,h2,http/1.1,both} x client ALPN{none,both}; closes at once; answers in plaintext; silent} plus the real server flight truncated at byte offsets (every 3rd in quick, every one in thorough) then close / then stall; one byte of the server flight altered at EVERY offset (xor 0x01; thorough also 0x80); the peer's output cut into pieces of {1,2,5,64} bytes with the client scheduled after each piece, crossed with stream buffers of {64,100,16384} bytes (tokio-rustls on its own, without hyperdriver, stalls over a tokio duplex of fewer than ~20 bytes, so smaller buffers are not used) for the client's own writes, for matching / mismatching / untrusted certificates, directly and through the complete Client; fragmented + truncated; each through the real TlsTransport with a TLS configuration under the deterministic executor, raw bytes recorded at the peer; distinct = (scheme, host, peer class, client outcome, first wire byte)");
     run.cov("samples", samples);
     run.assume("certificate validity is checked at a pinned instant inside the fixture certificates' validity window (rustls TimeProvider); rustls itself is trusted");
     run.assume("DNS host names compare case-insensitively; an IP-literal host offers no server name and is checked against IP SANs");
